@@ -10,6 +10,7 @@ import (
 	"go/types"
 	"os"
 	"sort"
+	"strconv"
 	"strings"
 
 	"golang.org/x/tools/go/ssa"
@@ -1075,6 +1076,11 @@ func withEquivalents(fs []FactT) []FactT {
 				add(head[:j+1]+fl+"("+args[1]+", "+args[0]+")", holds, f.Where)
 				add(head[:j+1]+methNeg[fl]+"("+args[1]+", "+args[0]+")", !holds, f.Where)
 			}
+			// time.Time: a.Before(b) ≡ b.After(a)
+			if head == "time.Time.Before" || head == "time.Time.After" {
+				other := map[string]string{"Before": "After", "After": "Before"}[m]
+				add(head[:j+1]+other+"("+args[1]+", "+args[0]+")", holds, f.Where)
+			}
 			// symmetric equality tests
 			if m == "Equal" || m == "Equals" || m == "IsEqual" {
 				add(head+"("+args[1]+", "+args[0]+")", holds, f.Where)
@@ -1182,6 +1188,25 @@ func (w *Walker) impliedFacts(fr *Frame, cf CallFact, depth int) []FactT {
 				}
 			}
 			return out
+		}
+	}
+	// anyZero(a, b, c) returned false: none of them is zero (a quantifier over a literal list)
+	if cf.Outcome == "true" || cf.Outcome == "false" {
+		if g := cf.Call.Common().StaticCallee(); g != nil && len(cf.Call.Common().Args) == 1 && !onChain(fr, g) {
+			if q := quantifierOf(g); q != nil && (cf.Outcome == "true") != q.hit {
+				if cc := cf.Call; cc != nil {
+					nfr := &Frame{Fn: g, Parent: fr, Call: cc, Depth: fr.Depth + 1}
+					ct := w.ts.Of(q.cond, nfr)
+					ix := w.ts.Of(q.idx, nfr).LooseString()
+					els := variadicElems(cf.Call.Common().Args[0])
+					if strings.Contains(ix, "φ") {
+						for k := range els {
+							t := substIndex(ct, ix, mk("const", strconv.Itoa(k)))
+							out = append(out, FactT{Text: t.LooseString(), Holds: !q.condOnHit, Where: cf.Call.Pos()})
+						}
+					}
+				}
+			}
 		}
 	}
 	for _, e := range w.cx.calleesOf(cf.Call) {
@@ -2058,4 +2083,170 @@ func closureArgs(ci ssa.CallInstruction) []*ssa.MakeClosure {
 		}
 	}
 	return out
+}
+
+// hostFrame: the frame an effect belongs to from the point of view of the module's logic.
+// A coin movement made through a thin bookkeeping component - an unexported function, or a
+// method of an unexported non-keeper type, that touches no store and only wraps bank / nft
+// calls (ledger.transfer, escrow.lock, tokenBook.mint) - belongs to the function that
+// called the component, not to the component. Rules that group or pair effects "of the
+// same function" use the host frame; facts are still taken at the event itself.
+func hostFrame(fr *Frame) *Frame {
+	for fr != nil && fr.Parent != nil && fr.Call != nil && theCtx != nil && theCtx.transparentHelper(fr.Fn) {
+		fr = fr.Parent
+	}
+	return fr
+}
+
+func (cx *Ctx) transparentHelper(f *ssa.Function) bool {
+	if cx.transp == nil {
+		cx.transp = map[*ssa.Function]bool{}
+	}
+	if v, ok := cx.transp[f]; ok {
+		return v
+	}
+	cx.transp[f] = false
+	ok := func() bool {
+		if f == nil || f.Blocks == nil || !isIrismodFunc(f) || f.Parent() != nil {
+			return false
+		}
+		if exportedName(f.Name()) {
+			return false
+		}
+		if rv := f.Signature.Recv(); rv != nil {
+			if isKeeperStruct(rv.Type()) {
+				return false
+			}
+			if n := namedOf(rv.Type()); n == nil || n.Obj().Exported() {
+				return false
+			}
+		}
+		for _, b := range f.Blocks {
+			if loopHeaderOf(b) != nil {
+				return false
+			}
+		}
+		eff := 0
+		for _, p := range cx.primsOf(f) {
+			switch {
+			case strings.HasPrefix(p.Kind, "bank.") || strings.HasPrefix(p.Kind, "nft."):
+				eff++
+			case p.Kind == "event" || strings.HasPrefix(p.Kind, "ext."):
+			default:
+				return false
+			}
+		}
+		// everything below it is of the same kind (a component method calling another)
+		for _, e := range cx.Edges(f) {
+			if e.Callee == f || e.Callee.Blocks == nil || !isIrismodFunc(e.Callee) {
+				continue
+			}
+			if len(cx.transPrimKinds(e.Callee)) > 0 && !cx.transparentHelper(e.Callee) {
+				return false
+			}
+			if cx.transparentHelper(e.Callee) {
+				eff++
+			}
+		}
+		return eff > 0
+	}()
+	cx.transp[f] = ok
+	return ok
+}
+
+type quantifier struct {
+	cond      ssa.Value // the test made on each element
+	condOnHit bool      // its value on the branch that returns from inside the loop
+	hit       bool      // the constant returned there (the other one is returned after the loop)
+	idx       ssa.Value // the loop index the element is taken at
+}
+
+var quantMemo = map[*ssa.Function]*quantifier{}
+
+// quantifierOf: func(xs ...T) bool { for _, x := range xs { if P(x) { return c } }; return !c }
+func quantifierOf(g *ssa.Function) *quantifier {
+	if q, ok := quantMemo[g]; ok {
+		return q
+	}
+	quantMemo[g] = nil
+	if g.Blocks == nil || !isIrismodFunc(g) || len(g.Params) != 1 || g.Signature.Results().Len() != 1 || !singleLoop(g) {
+		return nil
+	}
+	if _, ok := g.Params[0].Type().Underlying().(*types.Slice); !ok {
+		return nil
+	}
+	if b, ok := g.Signature.Results().At(0).Type().Underlying().(*types.Basic); !ok || b.Kind() != types.Bool {
+		return nil
+	}
+	constRet := func(b *ssa.BasicBlock) (bool, bool) {
+		if len(b.Instrs) != 1 {
+			return false, false
+		}
+		r, ok := b.Instrs[0].(*ssa.Return)
+		if !ok || len(r.Results) != 1 {
+			return false, false
+		}
+		c, ok := r.Results[0].(*ssa.Const)
+		if !ok || c.Value == nil || c.Value.Kind() != constant.Bool {
+			return false, false
+		}
+		return constant.BoolVal(c.Value), true
+	}
+	var q *quantifier
+	nret := 0
+	for _, b := range g.Blocks {
+		if _, ok := constRet(b); ok {
+			nret++
+		}
+		if !inLoop(b) || len(b.Succs) != 2 {
+			continue
+		}
+		ifi, ok := b.Instrs[len(b.Instrs)-1].(*ssa.If)
+		if !ok {
+			continue
+		}
+		for i, sc := range b.Succs {
+			v, ok := constRet(sc)
+			if !ok || inLoop(sc) {
+				continue
+			}
+			if b == loopHeaderOf(b) {
+				continue // the loop's own exit test
+			}
+			if q != nil {
+				return nil
+			}
+			q = &quantifier{cond: ifi.Cond, condOnHit: i == 0, hit: v}
+		}
+	}
+	if q == nil || nret != 2 {
+		return nil
+	}
+	// the element index: the one IndexAddr on the parameter inside the loop
+	for _, b := range g.Blocks {
+		for _, ins := range b.Instrs {
+			if ia, ok := ins.(*ssa.IndexAddr); ok && ia.X == ssa.Value(g.Params[0]) {
+				if q.idx != nil && q.idx != ia.Index {
+					return nil
+				}
+				q.idx = ia.Index
+			}
+		}
+	}
+	if q.idx == nil {
+		return nil
+	}
+	// the value returned after the loop is the other constant
+	for _, r := range returnsOf(g) {
+		if inLoop(r.Block()) {
+			continue
+		}
+		if c, ok := r.Results[0].(*ssa.Const); ok && c.Value != nil && c.Value.Kind() == constant.Bool {
+			if len(r.Block().Preds) == 1 && r.Block().Preds[0] == loopHeaderOf(r.Block().Preds[0]) && constant.BoolVal(c.Value) == q.hit {
+				return nil
+			}
+		}
+	}
+	quantMemo[g] = q
+	return q
 }
